@@ -29,7 +29,9 @@ def run(ctx):
     ctx.floor('C10.embed', 300)
     ctx.floor('C10.mask', 300)
     ctx.floor('C10.partial', 100)
-    pool = w_alg.MetaPool(ctx.rng('meta'))
+    # (defaults: small ints -- one object per value in the whole process -- and values every function gets its own
+    # equal copy of: a large int, a tuple)
+    pool = w_alg.MetaPool(ctx.rng('meta'), defaults=('1', '2', '3', '1000', '(1, 2)'))
     saved = ctx.deadline
     sub = {'quick': 9, 'thorough': 100}[ctx.tier]
     for drv in (lambda c, t: w_alg.drive_merge(c, t, want='aligned', pool=pool),
